@@ -243,9 +243,13 @@ def depth_step_rule(A: Analysis, col: Collector, rule: str):
     n_fn = 0
     for f in [f for f in A.repo.functions.values() if f.module.name == "pydra.engine.state" and f.cls is None]:
         rec = [c for c in A.calls(f) if isinstance(c.func, ast.Name) and c.func.id == f.name]
+        params = [p_.arg for p_ in f.params()]
+        # a descent into the elements of the container: the recursive call's first argument is the target of a
+        # loop over the function's first parameter
+        elem_vars = {l.target.id for l in walk_own(f.node) if isinstance(l, ast.For) and isinstance(l.target, ast.Name) and params and isinstance(l.iter, ast.Name) and l.iter.id == params[0]}
+        rec = [c for c in rec if c.args and isinstance(c.args[0], ast.Name) and c.args[0].id in elem_vars]
         if not rec:
             continue
-        params = [p_.arg for p_ in f.params()]
         for i, pname in enumerate(params):
             entry = [n for n in f.node.body if isinstance(n, ast.AugAssign) and isinstance(n.target, ast.Name) and n.target.id == pname and isinstance(n.op, (ast.Sub, ast.Add)) and isinstance(n.value, ast.Constant) and n.value.value == 1]
             per_call = []
